@@ -55,6 +55,42 @@ theorem refused_iff (c : HCfg) (t : HashTable) (op : Op) (m : Mem) :
   · exact ⟨fun _ => b, fun _ => a⟩
   · exact ⟨fun x => absurd x a, fun x => by omega⟩
 
+/-- **refused_iff at history level**: the number of `CC_ERR_ALLOC` entries in the failure list of a
+history is exactly the number of refusals that fired during it — the ideal map's oracle
+(`HashTable.failedOf`) says "refused" precisely when the allocator refused (the only other failure,
+`CC_ERR_MAX_CAPACITY`, is pinned by `C02.history_statuses_closed`) -/
+theorem history_refused_count (c : HCfg) (ops : List Op) (t : HashTable) (m : Mem) :
+    (t.run c ops m).2.2.2.nrefused = m.nrefused + ((t.run c ops m).2.1.filter (· == some .errAlloc)).length := by
+  induction ops generalizing t m with
+  | nil => rfl
+  | cons op ops ih =>
+    simp only [HashTable.run]
+    rw [ih]
+    have hf : (HashTable.failedOf op (t.step c op m).1 == some Stat.errAlloc) = ((t.step c op m).1.st == some Stat.errAlloc) := by
+      cases op with
+      | add k v =>
+        simp only [HashTable.step, HashTable.failedOf]
+        cases (t.add c k v m).1 <;> rfl
+      | get k =>
+        have := (HashTable.step_nrefused c t (.get k) m)
+        simp only [HashTable.failedOf]
+        rcases this with ⟨a, b⟩ | ⟨a, _⟩
+        · simp only [HashTable.step, HashTable.get] at a; split at a <;> simp at a
+        · simp [a]
+      | containsKey k => simp [HashTable.failedOf, HashTable.step]
+      | remove k =>
+        have := (HashTable.step_nrefused c t (.remove k) m)
+        simp only [HashTable.failedOf]
+        rcases this with ⟨a, b⟩ | ⟨a, _⟩
+        · simp only [HashTable.step, HashTable.remove] at a; split at a <;> simp at a
+        · simp [a]
+      | removeAll => simp [HashTable.failedOf, HashTable.step]
+    rcases HashTable.step_nrefused c t op m with ⟨a, b⟩ | ⟨a, b⟩
+    · rw [b, List.filter_cons, hf, a]; simp; omega
+    · rw [b, List.filter_cons, hf]
+      have : ((t.step c op m).1.st == some Stat.errAlloc) = false := by simpa using a
+      rw [this]; simp
+
 /-- a call that does not report `CC_ERR_ALLOC` saw no refusal -/
 theorem not_refused (c : HCfg) (t : HashTable) (op : Op) (m : Mem) (h : (t.step c op m).1.st ≠ some .errAlloc) :
     (t.step c op m).2.2.nrefused = m.nrefused := by
